@@ -563,7 +563,7 @@ pub fn execute(case: &Case, ctx: &mut Ctx) {
                 trn::Kind::SetSpeed { v0, trace, .. } => {
                     ctx.class.push(format!("io:setspeed:units{}", inner.train.consist.len()));
                     let Ok(tc) = trn::build_train_config(&inner.train) else { return };
-                    let its = InitTrainState::new(Some(inner.init_time * uc::S), inner.init_offset.map(|o| o * uc::M), Some(*v0 * uc::MPS));
+                    let its = InitTrainState::new(Some(inner.init_time * uc::S), inner.init_offset.map(|o| o * uc::M), if inner.init_speed_unset { None } else { Some(*v0 * uc::MPS) });
                     let tsb = TrainSimBuilder::new("t0".into(), tc, trn::build_consist(&inner.train, inner.save_interval), None, None, Some(its));
                     let mut t = inner.init_time;
                     let (mut times, mut speeds) = (vec![t], vec![*v0]);
